@@ -211,6 +211,7 @@ func (r *relay) relayFrames(closing chan bool, stop chan struct{}) error {
 			frame, err = r.src.ReadFrame()
 			frameReady <- struct{}{}
 		}()
+	wait:
 		select {
 		case <-frameReady:
 			if err != nil {
@@ -234,7 +235,8 @@ func (r *relay) relayFrames(closing chan bool, stop chan struct{}) error {
 			}
 		case err := <-writerErr:
 			if r.destGone() {
-				continue
+				// The frame that is being read is still waited for: no second reader.
+				goto wait
 			}
 			return fmt.Errorf("sending frame: %w", err)
 		case <-closing:
